@@ -266,15 +266,24 @@ class Ref:
         self.u = np.linalg.solve(self.H, -g).reshape(T, nc)
         self.x = self.rollout(self.u)
         self.J, self.Jabs = self.cost(self.x, self.u)
-        self.sg, self.xa = self.grad_scale(self.u)
-        Hinv = np.linalg.inv(self.H)
-        self.tol_u = (np.abs(Hinv) @ self.sg.reshape(-1)).reshape(T, nc)
-        tx = np.zeros((T + 1, ns))
-        for t in range(T + 1):
-            tx[t] = np.abs(G[t]) @ self.tol_u.reshape(-1) + self.xa[t]
-        self.tol_x = tx
+        self.Hinv_abs = np.abs(np.linalg.inv(self.H))
+        self.tol_u, self.tol_x, self.sg = self.tols(None)
         ev = np.linalg.eigvalsh(self.H)
         self.condH = float(ev[-1] / ev[0]) if ev[0] > 0 else float("inf")
+
+    def tols(self, ubar):
+        """componentwise error scales (to be multiplied by c*eps): |H^-1| sg and |G| tol_u + xa, where sg / xa are the
+        magnitudes of the terms in the gradient / roll-out at the optimum plus, when a nominal trajectory is supplied,
+        at the nominal (the code forms u = ubar + du, x - xbar: rounding proportional to the nominal's size)"""
+        sg, xa = self.grad_scale(self.u)
+        if ubar is not None:
+            sg2, xa2 = self.grad_scale(np.asarray(ubar, dtype=np.float64))
+            sg, xa = sg + sg2, xa + xa2
+        tol_u = (self.Hinv_abs @ sg.reshape(-1)).reshape(self.T, self.nc)
+        tx = np.zeros((self.T + 1, self.ns))
+        for t in range(self.T + 1):
+            tx[t] = np.abs(self.G[t]) @ tol_u.reshape(-1) + xa[t]
+        return tol_u, tx, sg
 
     def rollout(self, u):
         x = np.zeros((self.T + 1, self.ns))
